@@ -63,6 +63,13 @@ def build_plan(tier, seed):
     runs.append({"name": "homogeneous_batches_b3", "inputs": seq, "form": "dict", "batch_size": 3, "n_jobs": 4, "threshold": 0})
     runs.append({"name": "homogeneous_batches_b3_thr", "inputs": seq, "form": "list", "batch_size": 3, "n_jobs": 4,
                  "threshold": 0.5})
+    # thresholds sitting on a reported confidence (learned from the run "only_mcs" in the same process)
+    thr_in = kinds["mcs"] + kinds["rule"][:2] + kinds["balanced"][:2]
+    for k in range(3 if quick else 6):
+        for mode in ("exact", "typed") + (() if quick else ("above", "below")):
+            runs.append({"name": "thr_on_conf_%d_%s" % (k, mode), "inputs": thr_in, "form": "list",
+                         "batch_size": None if k % 2 else 4, "n_jobs": 4, "threshold": 0,
+                         "threshold_from": {"run": "only_mcs", "k": k * 2 + 1, "mode": mode}})
     # the command line: statistics file next to the output file (valid rows only here; C05 covers the rest)
     cli_rows = [{"rid": "c%d" % j, "reaction": s, "note": "n%d" % j} for j, s in enumerate(seq + kinds["mcs"][3:] + kinds["rule"][3:])]
     runs.append({"name": "cli_unbatched", "inputs": cli_rows, "form": "cli", "batch_size": None, "n_jobs": 4, "threshold": 0})
